@@ -17,3 +17,6 @@ func FuzzC03_ReleaseChainsRandom(f *testing.F)  { f.Fuzz(rapid.MakeFuzz(propC03R
 func FuzzC12_Random(f *testing.F)               { f.Fuzz(rapid.MakeFuzz(propC12Random)) }
 func FuzzC08_SyncChainsRandom(f *testing.F)     { f.Fuzz(rapid.MakeFuzz(propC08SyncChainsRandom)) }
 func FuzzC04_MathTyped(f *testing.F)            { f.Fuzz(rapid.MakeFuzz(propC04MathTyped)) }
+func FuzzC04_MathRounding(f *testing.F)         { f.Fuzz(rapid.MakeFuzz(propC04MathRounding)) }
+func FuzzC04_Dematerialize(f *testing.F)        { f.Fuzz(rapid.MakeFuzz(propC04Dematerialize)) }
+func FuzzC09_ContextOperators(f *testing.F)     { f.Fuzz(rapid.MakeFuzz(propC09ContextOperators)) }
